@@ -1907,6 +1907,10 @@ def iter_index(it):
 def m_iter_generic(c):
     # closures passed to these adapters are analysed once with unknown arguments so that their
     # obligations are generated; the result is unknown
+    if c.path.endswith("::fold") and c.I.opts.get("bitfields"):
+        r = m_iter_fold(c)  # (comparison runs) exact for small constant-length generic iterators
+        if r is not NOT_HANDLED:
+            return r
     for a in c.args[1:]:
         if isinstance(a, VClosure):
             body = c.I.F.bodies.get(a.path)
@@ -2073,3 +2077,32 @@ def m_ck_fold(c):
     c.st.notes["cksum"] = c.st.notes.get("cksum", ()) + ((kind, s0, c.sp),)
     a = reg_atom(("ckfold", kind, s0.key()), 0, 65535)
     return c.ret(VInt(Lin.atom(a)))
+
+
+@M.regp(r"(^core::iter::Iterator::fold$)|(as core::iter::Iterator>::fold$)|(core::iter::traits::iterator::Iterator::fold$)")
+def m_iter_fold(c):
+    """fold over a generic slice / array iterator of small constant length: the closure is called once per element
+    (elements are unknown values of the element type)"""
+    if len(c.args) != 3:
+        return NOT_HANDLED
+    it, init, f = c.args
+    n = ety = None
+    if isinstance(it, VIter) and it.kind == "count" and isinstance(it.d.get("n"), Lin) and it.d["n"].is_const():
+        n, ety = it.d["n"].c, it.d.get("ety")
+    elif isinstance(it, VIter) and it.kind == "slice":
+        r = it.d["r"]
+        if r.origin[0] == "place" and r.len.is_const():
+            arr = c.I.load(c.st, ("place", r.origin[1], r.origin[2], r.origin[3]))
+            if isinstance(arr, VArray) and arr.ety is not None and arr.ety != "u8":
+                n, ety = r.len.c, arr.ety
+    if n is None or ety is None or not (0 <= n <= 8):
+        return NOT_HANDLED
+
+    def step(st, acc, i):
+        if i == n:
+            return c.ret_k(st, acc)
+        oid = ("ge", fresh_id())
+        st.heap[oid] = c.I.materialize(st, ety, ("gev", fresh_id()))
+        ref = VRef(0, oid, (), False)
+        return call_closure_then(c, st, f, [acc, ref], lambda s2, v: step(s2, v, i + 1))
+    return step(c.st, init, 0)
